@@ -64,6 +64,7 @@ Definition s : issuer_state Z := mkis Z sk auth ct rt 77.
 Definition resolve_did (_ : unit) (_ : Z) : did_answer := DDoc (Some (Some true)).
 Definition id_from_did (_ : unit) (_ : Z) : option Z := None.
 Definition genesis_check (_ _ : Z) : option bool := None.
+Definition json_rt (n : Z) : option Z := if n =? 2 ^ 53 + 1 then Some (2 ^ 53) else Some n.
 Definition rslv : resolver := fun cs => Some (honest_answer poseidon Z true s (cs_nonce cs)).
 Definition reg : registry := [("SparseMerkleTreeProof"%string, rslv)].
 
@@ -85,9 +86,9 @@ Import Toy.
         theorem yields a verifying bundle; the same bundle verifies by computation ---- *)
 Example ex_bjj_complete :
   verify_bjj poseidon q unit Z sig_verify resolve_did id_from_did genesis_check reg
-    (issue_bjj poseidon unit Z Z sign true s cl tt "SparseMerkleTreeProof") = Ok tt.
+    (issue_bjj poseidon unit Z Z sign json_rt true s cl tt "SparseMerkleTreeProof") = Ok tt.
 Proof.
-  apply (bjj_complete poseidon q 40 unit Z Z sig_verify pubx puby sign resolve_did id_from_did genesis_check reg
+  apply (bjj_complete poseidon q 40 unit Z Z sig_verify pubx puby sign json_rt resolve_did id_from_did genesis_check reg
            sig_correct ltac:(reflexivity) ltac:(vm_compute; congruence) range ltac:(lia)
            true s s cl tt "SparseMerkleTreeProof"%string rslv honest).
   - vm_compute. repeat split; congruence.
@@ -100,24 +101,39 @@ Proof.
   - vm_compute. split; congruence.
   - vm_compute. reflexivity.
   - vm_compute. intros [H|[H|[]]]; discriminate.
+  - reflexivity.
 Qed.
+
+(* D22: the same issuer with auth nonce 2^53+1, which encoding/json turns into 2^53 (recorded
+   by every run's oracle table): every hypothesis of bjj_complete_refuted_json_number holds,
+   and the honest bundle is rejected *)
+Definition auth_big : claim := mkclaim 0 0 (pubx sk) (puby sk) (2 ^ 53 + 1) 0 0 0.
+Definition ct_big : tree :=
+  match add_all 40 [(hi_of poseidon auth_big, hv_of poseidon auth_big); (123, 456)] with Ok t => t | _ => E end.
+Definition s_big : issuer_state Z := mkis Z sk auth_big ct_big rt 77.
+
+Example ex_bjj_complete_refuted_big_nonce :
+  verify_bjj poseidon 100000000000000003 unit Z sig_verify resolve_did id_from_did genesis_check
+    [("SparseMerkleTreeProof"%string, fun cs => Some (honest_answer poseidon Z true s_big (2 ^ 53 + 1)))]
+    (issue_bjj poseidon unit Z Z sign json_rt true s_big cl tt "SparseMerkleTreeProof") = Err ENonce.
+Proof. vm_compute. reflexivity. Qed.
 
 Example ex_bjj_complete_computed :
   verify_bjj poseidon q unit Z sig_verify resolve_did id_from_did genesis_check reg
-    (issue_bjj poseidon unit Z Z sign false s cl tt "SparseMerkleTreeProof") = Ok tt.
+    (issue_bjj poseidon unit Z Z sign json_rt false s cl tt "SparseMerkleTreeProof") = Ok tt.
 Proof. vm_compute. reflexivity. Qed.
 
 (* ---- C07_sound / C07_decision: an accepted bundle exists (above); faulted ones are
         rejected: another signing key, an auth claim that is not in the tree ---- *)
 Example ex_bjj_other_key_rejected :
-  let b := issue_bjj poseidon unit Z Z sign true s cl tt "SparseMerkleTreeProof" in
+  let b := issue_bjj poseidon unit Z Z sign json_rt true s cl tt "SparseMerkleTreeProof" in
   verify_bjj poseidon q unit Z sig_verify resolve_did id_from_did genesis_check reg
     (mkbjj (b_claim b) (b_auth b) (Some (sign 6 (poseidon [hi_of poseidon cl; hv_of poseidon cl])))
            (b_mtp b) (b_state b) (b_did b) (b_status b)) = Err ESignature.
 Proof. vm_compute. reflexivity. Qed.
 
 Example ex_bjj_attacker_auth_claim_rejected :
-  let b := issue_bjj poseidon unit Z Z sign true s cl tt "SparseMerkleTreeProof" in
+  let b := issue_bjj poseidon unit Z Z sign json_rt true s cl tt "SparseMerkleTreeProof" in
   verify_bjj poseidon q unit Z sig_verify resolve_did id_from_did genesis_check reg
     (mkbjj (b_claim b) (Some (mkclaim 0 0 (pubx 6) (puby 6) 9 0 0 0))
            (Some (sign 6 (poseidon [hi_of poseidon cl; hv_of poseidon cl])))
@@ -130,7 +146,7 @@ Example ex_bjj_revoked_rejected :
   let s' := mkis Z sk auth ct rt' 77 in
   verify_bjj poseidon q unit Z sig_verify resolve_did id_from_did genesis_check
     [("SparseMerkleTreeProof"%string, fun cs => Some (honest_answer poseidon Z true s' (cs_nonce cs)))]
-    (issue_bjj poseidon unit Z Z sign true s cl tt "SparseMerkleTreeProof") = Err ERevoked.
+    (issue_bjj poseidon unit Z Z sign json_rt true s cl tt "SparseMerkleTreeProof") = Err ERevoked.
 Proof. vm_compute. reflexivity. Qed.
 
 (* ---- C08_complete ---- *)
